@@ -1,5 +1,8 @@
 """C05  List, map and sequence templates return exactly the denoted items  (ak/llparser.py)"""
 import ast
+import contextlib
+import io
+import logging
 import os
 
 from harness.lib import sx as SX
@@ -229,7 +232,10 @@ def eff_list(spec):
 def gen_grammar(rng, force=None):
     """-> grammar dict; `force` may pin {"top": ..., "kind": ..., "combo": ...}"""
     force = force or {}
-    kind = force.get("kind") or rng.choice(["choice", "choice", "nullable", "nullable", "chain", "single", "choice2", "keep", "chainnode"])
+    kind = force.get("kind") or rng.choice(["choice", "choice", "nullable", "nullable", "chain", "single", "choice2", "keep", "chainnode",
+                                            "direct", "direct"])
+    if kind == "direct":
+        return gen_grammar_direct(rng, force)
     top = force.get("top") or rng.choice(["list", "list", "list", "map", "seq", "value", "blist", "bmap", "optlist"])
     prods = []
     keep = []
@@ -354,6 +360,106 @@ def gen_grammar(rng, force=None):
     prods.insert(0, ["E", {"t": "plain", "alts": [e_alt]}])
     g = {"start": "E", "keep": keep, "smart": rng.random() < 0.8, "prods": prods, "kind": kind, "top": top}
     return prune(g)
+
+
+ROW_KINDS = ["seq", "blist", "blist0", "bmap", "list", "optlist", "map", "optmap"]
+ROW_NULLABLE = {"seq", "blist", "blist0", "bmap", "optlist", "optmap"}
+DIRECT_TOPS = ["list", "blist", "optlist", "map", "bmap", "value"]
+
+
+def gen_grammar_direct(rng, force):
+    """grammars in which the ITEM symbol of a list / the VALUE symbol of a map is DIRECTLY a template symbol ROW (no choice
+    or chain symbol in between): ROW = a ProdSequence, a bracket-less list (with or without delimiter), a bracket-less
+    map, a bracketed (optional) list or map.  A raw ROW element is a leaf in several of these cases (a flattened sequence,
+    an empty bracket-less container, an absent optional container) although it is not a token.  Rows are items of the
+    top list / values of the top map and, through LIST / MAP (reached from the rows through VALUE or as sequence
+    elements), of containers at every depth."""
+    row = force.get("row") or rng.choice(ROW_KINDS)
+    top = force.get("top") or rng.choice(DIRECT_TOPS)
+    atoms = rng.sample(ATOMS, rng.randint(1, 3))
+    if "WORD" not in atoms and rng.random() < 0.7:
+        atoms[0] = "WORD"
+    use_map = rng.random() < 0.7
+    inner_row = rng.random() < 0.6          # the item symbol of LIST is ROW
+    map_row = use_map and rng.random() < 0.5     # the value symbol of MAP is ROW
+    if top == "value" and not map_row:
+        inner_row = True
+    row_nullable = row in ROW_NULLABLE
+    prods = []
+    alts = [[a] for a in atoms] + [["LIST"]] + ([["MAP"]] if use_map else [])
+    rng.shuffle(alts)
+    prods.append(["VALUE", {"t": "plain", "alts": alts}])
+    if inner_row:
+        prods.append(["LIST", {"t": "list", "open": "[", "item": "ROW", "delim": ";", "close": "]",
+                               "afd": rng.choice([None, True, False]), "opt": None}])
+    else:
+        prods.append(["LIST", {"t": "list", "open": "[", "item": "VALUE", "delim": ",", "close": "]",
+                               "afd": rng.choice([None, True, False]), "opt": None}])
+    keysym = rng.choice(["WORD", "STR", "KEY"])
+    if use_map:
+        prods.append(["MAP", {"t": "map", "open": "{", "key": keysym, "assign": rng.choice([":", "="]),
+                              "val": "ROW" if map_row else "VALUE", "delim": ";" if map_row else ",", "close": "}",
+                              "opt": None, "afd": rng.choice([None, None, True, False])}])
+    r_item = "VALUE" if rng.random() < 0.7 else atoms[0]
+    if row == "seq":
+        el = [s for s in ATOMS if rng.random() < 0.5] or ["WORD"]
+        el += ["LIST"] if rng.random() < 0.85 else []
+        el += ["MAP"] if use_map and rng.random() < 0.6 else []
+        rng.shuffle(el)
+        prods.append(["ROW", {"t": "seq", "syms": el}])
+    elif row in ("blist", "blist0"):
+        prods.append(["ROW", {"t": "list", "open": None, "item": r_item, "delim": "," if row == "blist" else None, "close": None,
+                              "afd": rng.choice([None, False]), "opt": None}])
+    elif row in ("list", "optlist"):
+        dl = "," if rng.random() < 0.8 else None
+        prods.append(["ROW", {"t": "list", "open": "(", "item": r_item, "delim": dl, "close": ")",
+                              "afd": rng.choice([None, True, False]) if dl else rng.choice([None, False]),
+                              "opt": True if row == "optlist" else rng.choice([None, False])}])
+    else:
+        br = row != "bmap"
+        prods.append(["ROW", {"t": "map", "open": "(" if br else None, "key": keysym, "assign": rng.choice([":", "="]), "val": "VALUE",
+                              "delim": ",", "close": ")" if br else None,
+                              "opt": True if row == "optmap" else (rng.choice([None, False]) if br else None),
+                              "afd": rng.choice([None, True, False])}])
+    if keysym == "KEY":
+        prods.append(["KEY", {"t": "plain", "alts": [["WORD"], ["STR"]]}])
+    semi = rng.random() < 0.7
+    head = []
+    if top == "value":
+        topsym = "VALUE"
+    elif top in ("list", "blist", "optlist"):
+        combos = [c for c in LIST_COMBOS if (c[0] if top == "list" else not c[0] if top == "blist" else c[3])]
+        if row_nullable:
+            combos = [c for c in combos if c[1]]
+        br, dl, afd, opt = force.get("combo") or rng.choice(combos)
+        prods.append(["TOP", {"t": "list", "open": "<" if br else None, "item": "ROW", "delim": "|" if dl else None,
+                              "close": ">" if br else None, "afd": afd, "opt": opt}])
+        topsym = "TOP"
+        if not br:
+            semi = True
+        if opt:
+            head = ["="] if rng.random() < 0.5 else []
+    else:
+        br = top == "map"
+        opt = rng.choice([None, None, True, False]) if br else None
+        prods.append(["TOP", {"t": "map", "open": "<" if br else None, "key": rng.choice(["WORD", "STR", "NUM"]),
+                              "assign": rng.choice([":", "="]), "val": "ROW", "delim": "|", "close": ">" if br else None,
+                              "opt": opt, "afd": rng.choice([None, True, False])}])
+        topsym = "TOP"
+        if not br:
+            semi = True
+        if opt:
+            head = ["|"] if rng.random() < 0.5 else []
+    prods.insert(0, ["E", {"t": "plain", "alts": [head + [topsym] + ([";"] if semi else [])]}])
+    g = {"start": "E", "keep": [], "smart": rng.random() < 0.8, "prods": prods, "kind": "direct", "top": top, "row": row}
+    return prune(g)
+
+
+def cont_nullable(g, s):
+    """s is DIRECTLY a template symbol that derives the empty token string as an EMPTY CONTAINER (a bracket-less list or
+    map, a sequence) - unlike a nullable choice symbol or an absent optional container, which give None"""
+    sp = g["_p"].get(s)
+    return bool(sp) and (sp["t"] == "seq" or (sp["t"] in ("list", "map") and sp["open"] is None))
 
 
 def prune(g):
@@ -512,13 +618,29 @@ class Deriver:
             pass
         n = self.length(depth, self.nd(sp["item"]))
         item_nullable = sp["item"] in self.nul
+        item_cont = cont_nullable(self.g, sp["item"])
         items, toks_items = [], []
         for i in range(n):
             d, tk = self.derive(sp["item"], depth - 1)
             items.append(d)
             toks_items.append(tk)
+        if item_cont:
+            # the item symbol is DIRECTLY a container that may be empty (no tokens).  What the texts denote, as the
+            # implementation reads them (see the notes, "readings of empty rows"): "[ ]" is the empty list, never a list
+            # of one empty row; a delimiter in front of the closing bracket is followed by an empty last row (so no final
+            # delimiter is rendered or planted, whatever allow_final_delimiter says); the empty text of a bracket-less
+            # list is one empty row
+            if has_br and n == 1 and not toks_items[0]:
+                r = self.derive_nonempty(sp["item"], depth - 1)
+                if r:
+                    items[0], toks_items[0] = r
+                else:
+                    n, items, toks_items = 0, [], []
+            if not has_br and n == 0:
+                n, items, toks_items = 1, [self.empty_of(sp["item"])], [[]]
+            item_nullable = False
         final = False
-        if n >= 1 and has_br and has_d:
+        if n >= 1 and has_br and has_d and not item_cont:
             if afd:
                 final = rng.random() < 0.4
             elif self.reject and not self.planted and not item_nullable and rng.random() < 0.6:
@@ -545,6 +667,17 @@ class Deriver:
             toks.append([sp["close"], sp["close"]])
         self.budget -= len(toks)
         return {"l": items}, toks
+
+    def derive_nonempty(self, s, depth):
+        for _ in range(6):
+            d, tk = self.derive(s, depth, no_absent=True)
+            if tk:
+                return d, tk
+        return None
+
+    def empty_of(self, s):
+        t = self.g["_p"][s]["t"]
+        return {"s": []} if t == "seq" else {"l": []} if t == "list" else {"m": []}
 
     def d_map(self, sp, depth, no_absent):
         rng = self.rng
@@ -693,6 +826,11 @@ def gen_cases(rng, tier):
             if kind == "nullable" and not combo[1]:
                 continue
             forced.append({"top": "optlist" if combo[3] else ("list" if combo[0] else "blist"), "kind": kind, "combo": combo})
+    # item / value symbols that are DIRECTLY a template symbol: every row kind below every kind of top container
+    for row in ROW_KINDS:
+        for top in DIRECT_TOPS:
+            for _ in range(2 if big else 1):
+                forced.append({"kind": "direct", "row": row, "top": top})
     todo = forced + [None] * n_gram
     for f in todo:
         g = gen_grammar(rng, f)
@@ -711,6 +849,17 @@ def gen_cases(rng, tier):
 
 
 # ---- histories: one parser object, several calls ---------------------------------------------------------------
+# the read-only entry points of a parser object / of a returned tree (the model's HLook steps); the position in this
+# list is the label the model is given
+LOOKS = ["descr",       # LLParser.print_detailed_descr() (stdout captured)
+         "summary",     # the line generator behind it and behind the message of a GrammarError: ParserSummary.gen_detailed_descr()
+         "cleanuper",   # StdCleanuper.gen_detailed_descr()
+         "ambiguous",   # LLParser.is_ambiguous()
+         "str",         # str() / repr() of the parser object
+         "templates",   # str() and gen_productions() of every template object of the grammar
+         "tables",      # reading the public tables: terminals, prods_map, parse_table (str() of every rule), skip_tokens ...
+         "result",      # printers / finders of the last tree the parser returned: str, repr, gen_descr, printme, signature, clone, find_all ...
+         "error"]       # a text that is not accepted: the raised error, its str() and src_pos
 def nonterminals(g):
     return [n for n, _ in g["prods"]]
 
@@ -729,7 +878,7 @@ def sub_text(rng, g, sym, max_depth=3, max_len=4):
     return None
 
 
-def make_history(rng, g, second=None):
+def make_history(rng, g, second=None, sweep=False):
     """one parser object of grammar g; the main text is parsed at the beginning, in the middle and at the end, with calls
     that give per-call arguments (start_symbol_name, do_cleanup) or fail in between.  second = None | "keep" (a second
     parser object with the same keep_symbols set object) | "copy" (equal but separate set) | "tmpl" (a second parser
@@ -740,14 +889,37 @@ def make_history(rng, g, second=None):
     g.pop("_p", None)
     gg = main["g"]
 
+    def opts(c):
+        """per-call arguments that must not matter: debug=True (prints and logs the parse steps), a src_name, the text given
+        as a list / a generator of lines instead of one string"""
+        r = rng.random()
+        if r < 0.12:
+            c["debug"] = True
+        elif r < 0.2:
+            c["src"] = rng.choice(["f.txt", "", "input text", "<stdin>"])
+        elif r < 0.3:
+            c["as"] = rng.choice(["lines", "gen"])
+        return c
+
     def default_call(c, clean=True, p=0):
-        return {"op": "parse", "p": p, "text": c["text"], "start": None, "clean": clean, "d": c["d"], "expect": c["expect"]}
+        return opts({"op": "parse", "p": p, "text": c["text"], "start": None, "clean": clean, "d": c["d"], "expect": c["expect"]})
 
     def sym_call(sym, p=0, clean=True):
         r = sub_text(rng, g, sym)
         if r is None:
             return None
-        return {"op": "parse", "p": p, "text": r[1], "start": sym, "clean": clean, "d": r[0], "expect": "any"}
+        return opts({"op": "parse", "p": p, "text": r[1], "start": sym, "clean": clean, "d": r[0], "expect": "any"})
+
+    def look(p=0, what=None):
+        """a read-only entry point of the parser object (or of the last result it returned)"""
+        what = what or rng.choice(LOOKS + ["descr", "error"])
+        st = {"op": "look", "p": p, "what": what}
+        if what == "error":
+            t = main["text"]
+            cut = t[:rng.randint(0, max(0, len(t) - 1))]        # usually ends inside a container
+            st["text"] = rng.choice([t + rng.choice([" ]", " >", " ) ;", " , ,", " [ {"]), cut, cut, cut + rng.choice([" ,", " |", " ;"]),
+                                     "@", rng.choice(["]", ";;", "[ , ,", "{ : }"])])
+        return st
 
     nts = nonterminals(g)
     # the symbols a leak hurts most come first: item / value symbols of the templates, then the containers
@@ -767,10 +939,26 @@ def make_history(rng, g, second=None):
         pool = items if (r < 0.5 and items) else conts if (r < 0.75 and conts) else nts
         return rng.choice(pool)
 
+    if sweep:
+        # every read-only entry point in turn, the main text (or a second one) parsed before and after each
+        other = make_case(rng, g, max_depth=3, max_len=4) or main
+        g.pop("_p", None)
+        steps = [default_call(main)]
+        whats = LOOKS + ["error", "error"]
+        rng.shuffle(whats)
+        for i, what in enumerate(whats):
+            steps.append(look(what=what))
+            steps.append(default_call(main if i % 3 != 2 else other, clean=rng.choice([True, True, "two"])))
+        return {"k": "hist", "g": gg, "steps": steps, "second": "", "start2": None, "sweep": 1}
     steps = []
+    p_look = rng.choice([0.0, 0.25, 0.25, 0.5])
+    if rng.random() < 2 * p_look:
+        steps.append(look())          # before the first text is parsed
     first = rng.random()
     if first < 0.55:
         steps.append(default_call(main))
+        if rng.random() < p_look:
+            steps.append(look())
     n_mid = rng.randint(2, 4)
     start2 = None
     for i in range(n_mid):
@@ -806,8 +994,12 @@ def make_history(rng, g, second=None):
                     if c2:
                         c2["start"] = None if rng.random() < 0.7 else start2
                         steps.append(c2)
+        if rng.random() < p_look:
+            steps.append(look(p=1 if (start2 is not None and second != "tmpl" and rng.random() < 0.3) else 0))
         if rng.random() < 0.35:
             steps.append(default_call(main, clean=rng.choice([True, True, "two"])))
+    if p_look and not any(st["op"] == "look" for st in steps):
+        steps.append(look())
     steps.append(default_call(main))
     if second in ("keep", "copy") and start2 is not None:
         c2 = sym_call(start2, p=1)
@@ -824,8 +1016,8 @@ def make_history(rng, g, second=None):
 def hist_cases(rng, tier):
     big = tier == "thorough"
     out = []
-    kinds = ["choice", "choice", "nullable", "chain", "choice2", "keep", "chainnode", "single"]
-    n = 600 if big else 110
+    kinds = ["choice", "choice", "nullable", "chain", "choice2", "keep", "chainnode", "single", "direct", "direct"]
+    n = 700 if big else 120
     for i in range(n):
         g = gen_grammar(rng, {"kind": kinds[i % len(kinds)]})
         r = rng.random()
@@ -839,6 +1031,16 @@ def hist_cases(rng, tier):
         h = make_history(rng, g, second)
         if h:
             out.append(h)
+    # sweeps: on a grammar of every item kind, every read-only entry point with a parse before and after it
+    for i in range(60 if big else 12):
+        kd = (kinds + ["nullable", "direct"])[i % (len(kinds) + 2)]
+        force = {"kind": kd}
+        if kd == "nullable":
+            # the order of the alternatives of a list with a nullable item matters most when no final delimiter is allowed
+            force.update({"top": "list", "combo": (True, True, False, None)})
+        h = make_history(rng, gen_grammar(rng, force), sweep=True)
+        if h:
+            out.append(h)
     return out
 
 
@@ -846,8 +1048,9 @@ def kind(case):
     if case["k"] == "prods":
         return "prods:" + case["spec"]["t"]
     if case["k"] == "hist":
-        return f"hist:{case.get('second') or 'one'}:{case['g'].get('kind')}"
-    return f"{case['expect']}:{case['g'].get('top')}:{case['g'].get('kind')}"
+        return f"hist:{'sweep' if case.get('sweep') else case.get('second') or 'one'}:{case['g'].get('kind')}"
+    g = case["g"]
+    return f"{case['expect']}:{g.get('top')}:{g.get('kind')}" + (f":{g['row']}" if g.get("row") else "")
 
 
 # ------------------------------------------------------------------ implementation
@@ -988,7 +1191,26 @@ def _mutable_ids(x, TElement, acc, twice=None):
     return acc
 
 
+class _LogSink(logging.Handler):
+    """formats every record (so that the arguments of the log calls are rendered) and drops it"""
+    def emit(self, record):
+        self.format(record)
+
+
 def impl_hist(case, llparser):
+    lg = logging.getLogger(llparser.__name__)
+    sink = _LogSink()
+    prop = lg.propagate
+    lg.addHandler(sink)
+    lg.propagate = False
+    try:
+        return _impl_hist(case, llparser)
+    finally:
+        lg.removeHandler(sink)
+        lg.propagate = prop
+
+
+def _impl_hist(case, llparser):
     """one parser object (two after a ctor2 step), the calls of case["steps"] one after another.  Per call:
     r = what the call gave on the used parser object, f = what the same call gives on a parser object made for it alone,
     raw = parse(text, do_cleanup=False, start_symbol_name=..) of yet another new parser object (the model's input)"""
@@ -1007,13 +1229,73 @@ def impl_hist(case, llparser):
         kw = {}
         if st["start"] is not None:
             kw["start_symbol_name"] = st["start"]
-        if st["clean"] is True:
-            x = p.parse(st["text"], **kw)
-        else:
-            x = p.parse(st["text"], do_cleanup=False, **kw)
-            if st["clean"] == "two":
-                p.cleanup(x)
+        if st.get("debug"):
+            kw["debug"] = True
+        if "src" in st:
+            kw["src_name"] = st["src"]
+        text = st["text"]
+        if st.get("as") == "lines":
+            text = text.split("\n")
+        elif st.get("as") == "gen":
+            text = (ln for ln in st["text"].split("\n"))
+        with contextlib.redirect_stdout(io.StringIO()):
+            if st["clean"] is True:
+                x = p.parse(text, **kw)
+            else:
+                x = p.parse(text, do_cleanup=False, **kw)
+                if st["clean"] == "two":
+                    p.cleanup(x)
         return x
+
+    def do_look(p, st, last):
+        """-> text of what the entry point reported (compared with what a parser object made for this step alone reports)"""
+        what = st["what"]
+        buf = io.StringIO()
+        with contextlib.redirect_stdout(buf):
+            if what == "descr":
+                p.print_detailed_descr()
+            elif what == "summary":
+                print("\n".join(p._summary.gen_detailed_descr()))
+            elif what == "cleanuper":
+                print("\n".join(p.cleanuper.gen_detailed_descr()))
+            elif what == "ambiguous":
+                print(p.is_ambiguous())
+            elif what == "str":
+                print(len(str(p)) > 0, len(repr(p)) > 0)
+            elif what == "templates":
+                for n, t in sorted(p.prod_templates.items()):
+                    print(n, str(t), [[sy, [tuple(a) for a in pp]] for sy, pp in t.gen_productions()])
+            elif what == "tables":
+                print(sorted(p.terminals), sorted(p.skip_tokens), p.start_symbol_name)
+                for sy, rules in p.prods_map.items():
+                    print(sy, [str(r) for r in rules], [(r.symbol, r.production) for r in rules])
+                for key, rules in p.parse_table.items():
+                    print(key, len(rules), [str(r) for r in rules])
+                cu = p.cleanuper
+                print(sorted(cu.keep_symbols), sorted(cu.choice_symbols), sorted(cu.squash_symbols), sorted(cu.seq_symbols),
+                      sorted(cu.prod_templates))
+            elif what == "result":
+                if last is None:
+                    print("no result yet")
+                else:
+                    x, text = last
+                    for f in (lambda: str(x), lambda: repr(x), lambda: "\n".join(x.gen_descr()), lambda: x.printme(),
+                              lambda: str(x.signature()), lambda: repr(x.clone()), lambda: x.span,
+                              lambda: [e.name for e in x.find_all()], lambda: [e.name for e in x.find_all(bottom_first=True)],
+                              lambda: x.find_first(), lambda: [e.name for e in x.iter_all(exclude_root=False)],
+                              lambda: x.get_orig_text(text), lambda: x.get("WORD"), lambda: x.get_path_val("TOP"),
+                              lambda: x.is_leaf()):
+                        try:
+                            print(f())
+                        except Exception as e:  # noqa  (some finders do not accept every cleaned tree: only reported)
+                            print("raises", SX.exc_name(e))
+            elif what == "error":
+                try:
+                    x = p.parse(st["text"])
+                    print("accepted")
+                except llparser.Error as e:
+                    print(SX.exc_name(e), str(e), repr(e), getattr(e, "src_pos", None))
+        return buf.getvalue()
 
     def show(st, x):
         return raw_obs(x) if st["clean"] is False else clean_obs(x, TE)
@@ -1029,7 +1311,24 @@ def impl_hist(case, llparser):
     out = {"ctor": ["ok"], "steps": []}
     out["prods"] = [pr for name, sp in g["prods"] if name in tm0 for pr in _gen_prods(tm0[name])]
     held = []          # (step index, result object, its picture right after the call)
+    last = {}          # parser -> (its latest result, the text)
     for i, st in enumerate(case["steps"]):
+        if st["op"] == "look":
+            p = parsers.get(st["p"])
+            if p is None:
+                out["steps"].append({"skip": 1})
+                continue
+            # what the entry point reports is not an observable of this property (only what the calls after it return is);
+            # kept: did it raise, and for a text that is not accepted the class of the error on this parser object and
+            # on one made for this step alone
+            o = {}
+            lk = _guard(lambda: do_look(p, st, last.get(st["p"])))
+            o["look"] = [lk[0], lk[1].split(" ", 1)[0].strip() if (lk[0] == "ok" and st["what"] == "error") else "" if lk[0] == "ok" else lk[1]]
+            if st["what"] == "error":
+                lf = _guard(lambda: do_look(ctor(starts[st["p"]]), st, None))
+                o["lf"] = [lf[0], lf[1].split(" ", 1)[0].strip() if lf[0] == "ok" else lf[1]]
+            out["steps"].append(o)
+            continue
         if st["op"] == "ctor2":
             if st["how"] == "tmpl":
                 # the same template objects under other symbol names in a second grammar
@@ -1053,6 +1352,7 @@ def impl_hist(case, llparser):
             x = call(p, st)
             o["r"] = ["ok", show(st, x)]
             held.append((i, x, o["r"][1]))
+            last[st["p"]] = (x, st["text"])
         except BaseException as e:  # noqa
             if type(e).__name__ == "Hang":
                 raise
@@ -1078,10 +1378,10 @@ def impl_hist(case, llparser):
 
 
 # ------------------------------------------------------------------ model side
-VOCAB = (["E", "TOP", "VALUE", "V1", "V2", "ATOM", "ATOM2", "CONT", "LIST", "MAP", "SEQ", "SEQB", "KEY", "SATOM", "WORD", "NUM", "STR"]
+VOCAB = (["E", "TOP", "VALUE", "V1", "V2", "ATOM", "ATOM2", "CONT", "LIST", "MAP", "SEQ", "SEQB", "KEY", "SATOM", "WORD", "NUM", "STR", "ROW"]
          + sorted(PUNCT))
 _GEN = []
-for _n in ("TOP", "LIST", "MAP", "SEQ"):
+for _n in ("TOP", "LIST", "MAP", "SEQ", "ROW"):
     _GEN += [_n + "__TAIL", _n + "__KV_PAIR", _n + "__ELEMENTS", _n + "__ELEMENT", _n + "xELEMENT"]
 VOCAB_ID = {s: f"yy{i}" for i, s in enumerate(VOCAB + _GEN)}
 COQ_PRELUDE = "\n".join(f"Definition {i} : list Z := {SX.cstr(s)}." for s, i in VOCAB_ID.items())
@@ -1134,10 +1434,10 @@ def coq_case(case, obs):
     g = case["g"]
     gs = SX.clist(f"({csym(n)}, {cspec(sp)})" for n, sp in g["prods"])
     if case["k"] == "hist":
-        raws = {0: [], 1: []}
-        for st, o in model_calls(case, obs):
-            raws[st["p"]].append(crt(o["raw"][1]))
-        rl = {k: (SX.clist(v) if v else "(@nil rt)") for k, v in raws.items()}
+        ops = {0: [], 1: []}
+        for st, o in model_steps(case, obs):
+            ops[st["p"]].append(f"(HLook {LOOKS.index(st['what'])})" if st["op"] == "look" else f"(HCall {crt(o['raw'][1])})")
+        rl = {k: (SX.clist(v) if v else "(@nil hop)") for k, v in ops.items()}
         return f"CHist {gs} {csyms(g['keep'])} {csym(g['start'])} {rl[0]} {csym(case.get('start2') or g['start'])} {rl[1]}"
     raw = obs.get("raw", ["err"])
     raw2 = obs.get("raw2")
@@ -1147,13 +1447,17 @@ def coq_case(case, obs):
     return f"CParse {gs} {csyms(g['keep'])} {csym(g['start'])} {craw} {craw2}"
 
 
-def model_calls(case, obs):
-    """the calls of a history the model is asked about: calls with cleanup whose raw tree (of a parser object made for
-    that call alone) exists"""
+def model_steps(case, obs):
+    """the steps of a history the model is given: the calls with cleanup whose raw tree (of a parser object made for that
+    call alone) exists, and the uses of read-only entry points between them"""
     if obs.get("ctor", ["err"])[0] != "ok":
         return []
     return [(st, o) for st, o in zip(case["steps"], obs["steps"])
-            if st["op"] == "parse" and "raw" in o and o["raw"][0] == "ok"]
+            if (st["op"] == "parse" and "raw" in o and o["raw"][0] == "ok") or (st["op"] == "look" and "look" in o)]
+
+
+def model_calls(case, obs):
+    return [(st, o) for st, o in model_steps(case, obs) if st["op"] == "parse"]
 
 
 def in_model(case, obs):
@@ -1400,7 +1704,12 @@ def _describe(st):
     if st["op"] == "ctor2":
         return {"keep": "LLParser(.., keep_symbols=<the same set object>", "copy": "LLParser(.., keep_symbols=<an equal set>",
                 "tmpl": "LLParser(productions=<the same template objects>"}[st["how"]] + f", start_symbol_name={st['start']!r})"
+    if st["op"] == "look":
+        return f"p{st['p']}:<{st['what']}>" + (f"({st['text'][:30]!r})" if "text" in st else "")
     a = [repr(st["text"][:40])]
+    for k, v in (("debug", "debug=True"), ("src", "src_name=.."), ("as", "text as " + str(st.get("as")))):
+        if k in st:
+            a.append(v)
     if st["start"] is not None:
         a.append(f"start_symbol_name={st['start']!r}")
     if st["clean"] is not True:
@@ -1424,8 +1733,15 @@ def oracle_hist(case, obs):
             continue
         if "skip" in o:
             continue
-        r, f = o["r"], o["f"]
         before = "; ".join(_describe(x) for x in steps[:i])
+        if st["op"] == "look":
+            # what a read-only entry point reports is not this property's business; what parse() does with a text is
+            if st["what"] == "error" and o["look"] != o["lf"]:
+                fails.append(("history-dependent",
+                              f"step {i} {_describe(st)}: parse() of this text gives {o['look']} but on a parser object made for this step "
+                              f"alone {o['lf']}; steps before: {before}"))
+            continue
+        r, f = o["r"], o["f"]
         here = f"step {i} {_describe(st)}"
         if st["expect"] == "reject":
             if r[0] == "ok":
@@ -1434,7 +1750,8 @@ def oracle_hist(case, obs):
                 fails.append(("reject-wrong-error", f"{here}: forbidden final delimiter raised {r[1]}, not ParsingError"))
             continue
         if r != f:
-            sig = "keep-set-aliased" if shared else "history-dependent"
+            looked = any(x["op"] == "look" for x in steps[:i])
+            sig = "keep-set-aliased" if (shared and not looked) else "history-dependent"
             fails.append((sig, f"{here} gives {str(r)[:160]} but a parser object made for this call alone gives {str(f)[:160]}; "
                                f"calls before: {before}"))
         if st["expect"] == "ok" and r[0] == "err":
